@@ -164,7 +164,15 @@ fn observe(it: &Interp, p: &Params, causes: &[String], known: &KnownFindings, po
         let m = model_surface(tid, &truth, p, it);
         let mut a = surface_appending(sb, false, tid, p, it);
         let mut bs = surface_appending(&b, true, tid, p, it);
-        a.extend(surface(&it.live, sb, tid, p, anchor.as_deref()));
+        // half of the cases evaluate every read on its own fresh copy of the store as found, so
+        // that one read (e.g. replay, which rebuilds a missing sidecar) cannot heal the caches for
+        // the next one; the other half use the live store sequentially (in-memory state included)
+        if p.anchor % 2 == 0 {
+            a.extend(rv::surface::surface_isolated(sb, tid, p, anchor.as_deref()));
+            rep.class("reads_isolated");
+        } else {
+            a.extend(surface(&it.live, sb, tid, p, anchor.as_deref()));
+        }
         bs.extend(surface(&b_live, &b, tid, p, anchor.as_deref()));
         rep.count("reads_compared", a.len() as u64);
         for (key, av) in &a {
